@@ -90,40 +90,75 @@ def FaceOK (vs : Array (CSOPoint2 K)) (f : Face2 K) : Prop :=
 /-- the face's `proj` / `bcoords` are the literal `[1, 0]` of the 1-D start, or what `project_origin` returned for the
 face's own two end points (`proj_is_inside`) -/
 def InsOK (vs : Array (CSOPoint2 K)) (f : Face2 K) : Prop :=
-  (f.bc0 = 1 ∧ f.bc1 = 0) ∨
+  (f.bc0 = 1 ∧ f.bc1 = 0 ∧ f.proj = V2.zero) ∨
   ∃ a b, vs[f.pts0]? = some a ∧ vs[f.pts1]? = some b ∧ epaProjectOrigin2 a.point b.point = some (f.proj, f.bc0, f.bc1)
+
+/-- the upper bound `max_dist` is still `Real::MAX` or the extent `cso(m)·m` of the configuration-space obstacle along the
+unit normal `m` of some (non-degenerate) face that was expanded -/
+def MaxOK (supp1 supp2 : V2 K → V2 K) (M : K) : Prop :=
+  M = realMax ∨ ∃ (a b : CSOPoint2 K) (m : V2 K), GV a ∧ GV b ∧ ccwFaceNormal2 a.point b.point = some m ∧
+    M = (csoFromShapes supp1 supp2 m).point.dot m
+
+/-- the heap key of a face is `0` (1-D start), `-(normal·proj)` (faces made by the loop) or `-(normal·vertex)` with the
+face's first end point (2-D start) -/
+def KeyOK (vs : Array (CSOPoint2 K)) (f : Face2 K) (nd : K) : Prop :=
+  nd = 0 ∨ nd = -(f.normal.dot f.proj) ∨ ∃ a, vs[f.pts0]? = some a ∧ nd = -(f.normal.dot a.point)
 
 /-- what every `Some((p1, p2, n))` of the loop is made of: two stored CSO points `a b`, coordinates `[1 - t, t]`,
 the witnesses are those combinations of the `orig1` / `orig2` parts, `n` is `ccw_face_normal(a, b)` (or zero if that failed);
+at the bounds-met exit moreover the key `nd` of the returned face and the upper bound `M` with `M - (-nd) < eps_tol`;
 `.panic` never happens -/
-def OutOK : Epa2Result K → Prop
-  | .some p1 p2 n => ∃ (a b : CSOPoint2 K) (b0 b1 : K), GV a ∧ GV b ∧
-      ((b0 = 1 ∧ b1 = 0) ∨ ∃ proj, epaProjectOrigin2 a.point b.point = some (proj, b0, b1)) ∧
+def OutOK (supp1 supp2 : V2 K → V2 K) : Epa2Result K → Prop
+  | .some p1 p2 n why => ∃ (a b : CSOPoint2 K) (b0 b1 : K) (proj : V2 K), GV a ∧ GV b ∧
+      ((b0 = 1 ∧ b1 = 0 ∧ proj = V2.zero) ∨ epaProjectOrigin2 a.point b.point = some (proj, b0, b1)) ∧
       (ccwFaceNormal2 a.point b.point = some n ∨ (ccwFaceNormal2 a.point b.point = none ∧ n = V2.zero)) ∧
-      p1 = (a.orig1.smul b0).add (b.orig1.smul b1) ∧ p2 = (a.orig2.smul b0).add (b.orig2.smul b1)
+      p1 = (a.orig1.smul b0).add (b.orig1.smul b1) ∧ p2 = (a.orig2.smul b0).add (b.orig2.smul b1) ∧
+      (why = .boundsMet → ∃ nd M : K, M - -nd < epaEpsTol ∧ MaxOK GV supp1 supp2 M ∧
+        (nd = 0 ∨ nd = -(n.dot proj) ∨ nd = -(n.dot a.point)))
   | .none => True
   | .fuel => True
   | .panic => False
 
-structure Inv (st : Epa2State K) : Prop where
+structure Inv (supp1 supp2 : V2 K → V2 K) (st : Epa2State K) : Prop where
   verts : ∀ (i : Nat) (v : CSOPoint2 K), st.vertices[i]? = some v → GV v
   faces : ∀ (i : Nat) (f : Face2 K), st.faces[i]? = some f → FaceOK st.vertices f
-  heap : ∀ fid ∈ st.heap, ∃ f, st.faces[fid.id]? = some f ∧ InsOK st.vertices f
+  heap : ∀ fid ∈ st.heap, ∃ f, st.faces[fid.id]? = some f ∧ InsOK st.vertices f ∧ KeyOK st.vertices f fid.negDist
   best : ∃ f, st.faces[st.best.id]? = some f ∧ InsOK st.vertices f
+  maxd : MaxOK GV supp1 supp2 st.maxDist
 
-theorem return_ok {vs : Array (CSOPoint2 K)} {f : Face2 K} (hv : ∀ (i : Nat) (v : CSOPoint2 K), vs[i]? = some v → GV v)
-    (hf : FaceOK vs f) (hb : InsOK vs f) : OutOK GV (epa2Return f vs) := by
+theorem return_ok {supp1 supp2 : V2 K → V2 K} {vs : Array (CSOPoint2 K)} {f : Face2 K}
+    (hv : ∀ (i : Nat) (v : CSOPoint2 K), vs[i]? = some v → GV v)
+    (hf : FaceOK vs f) (hb : InsOK vs f) (why : Epa2Exit)
+    (hw : why = .boundsMet → ∃ nd M : K, M - -nd < epaEpsTol ∧ MaxOK GV supp1 supp2 M ∧ KeyOK vs f nd) :
+    OutOK GV supp1 supp2 (epa2Return f vs why) := by
   obtain ⟨a, b, ha, hb', hn⟩ := hf
   unfold epa2Return Face2.closestPoints
   simp only [ha, hb', OutOK]
-  refine ⟨a, b, f.bc0, f.bc1, hv _ _ ha, hv _ _ hb', ?_, ?_, rfl, rfl⟩
+  refine ⟨a, b, f.bc0, f.bc1, f.proj, hv _ _ ha, hv _ _ hb', ?_, ?_, rfl, rfl, ?_⟩
   · rcases hb with h | ⟨a', b', ha', hb'', hp⟩
     · exact Or.inl h
     · rw [ha] at ha'; rw [hb'] at hb''; cases ha'; cases hb''
-      exact Or.inr ⟨_, hp⟩
+      exact Or.inr hp
   · rcases hn with ⟨h1, _⟩ | ⟨h1, h2, _⟩
     · exact Or.inl h1
     · exact Or.inr ⟨h1, h2⟩
+  · intro hwhy
+    obtain ⟨nd, M, h1, h2, h3⟩ := hw hwhy
+    refine ⟨nd, M, h1, h2, ?_⟩
+    rcases h3 with h | h | ⟨a', ha', h⟩
+    · exact Or.inl h
+    · exact Or.inr (Or.inl h)
+    · rw [ha] at ha'; cases ha'; exact Or.inr (Or.inr h)
+
+theorem KeyOK_push {vs : Array (CSOPoint2 K)} {f : Face2 K} {nd : K} (c : CSOPoint2 K) (h : KeyOK vs f nd) :
+    KeyOK (vs.push c) f nd := by
+  rcases h with h | h | ⟨a, ha, h⟩
+  · exact Or.inl h
+  · exact Or.inr (Or.inl h)
+  · refine Or.inr (Or.inr ⟨a, ?_, h⟩)
+    rw [Array.getElem?_push]; split
+    · rename_i h'; rw [h'] at ha; simp at ha
+    · exact ha
 
 theorem FaceOK_push {vs : Array (CSOPoint2 K)} {f : Face2 K} (c : CSOPoint2 K) (hf : FaceOK vs f) :
     FaceOK (vs.push c) f := by
@@ -171,7 +206,8 @@ theorem newWithProj_isSome {vs : Array (CSOPoint2 K)} (proj : V2 K) (b0 b1 : K) 
   split <;> exact ⟨_, rfl⟩
 
 theorem new_ok {vs : Array (CSOPoint2 K)} {p0 p1 : Nat} {f : Face2 K} {ins : Bool}
-    (h : Face2.new vs p0 p1 = some (f, ins)) : FaceOK vs f ∧ (ins = true → InsOK vs f) := by
+    (h : Face2.new vs p0 p1 = some (f, ins)) :
+    FaceOK vs f ∧ (ins = true → InsOK vs f) ∧ f.pts0 = p0 := by
   unfold Face2.new at h
   split at h
   · rename_i a b ha hb
@@ -181,14 +217,14 @@ theorem new_ok {vs : Array (CSOPoint2 K)} {p0 p1 : Nat} {f : Face2 K} {ins : Boo
       obtain ⟨g, hg, he⟩ := h
       cases he
       obtain ⟨h1, h2, h3, h4, h5, h6⟩ := newWithProj_ok hg
-      refine ⟨h1, fun _ => Or.inr ⟨a, b, ?_, ?_, ?_⟩⟩
+      refine ⟨h1, fun _ => Or.inr ⟨a, b, ?_, ?_, ?_⟩, h4⟩
       · rw [h4]; exact ha
       · rw [h5]; exact hb
       · rw [h2, h3, h6]; exact hp
     · rw [Option.map_eq_some_iff] at h
       obtain ⟨g, hg, he⟩ := h
       cases he
-      exact ⟨(newWithProj_ok hg).1, fun h => by cases h⟩
+      exact ⟨(newWithProj_ok hg).1, (fun h => by cases h), (newWithProj_ok hg).2.2.2.1⟩
   · cases h
 
 theorem new_isSome {vs : Array (CSOPoint2 K)} {p0 p1 : Nat} (h0 : p0 < vs.size) (h1 : p1 < vs.size) :
@@ -204,15 +240,15 @@ theorem new_isSome {vs : Array (CSOPoint2 K)} {p0 p1 : Nat} (h0 : p0 < vs.size) 
     exact ⟨_, by rw [hf]; rfl⟩
 
 /-- one turn of the loop over the two new faces keeps the face / heap invariants (or returns a good result) -/
-theorem addFace_ok {vs : Array (CSOPoint2 K)} {curr : K} {faces : Array (Face2 K)} {heap : Array (FaceId2 K)}
+theorem addFace_ok {supp1 supp2 : V2 K → V2 K} {vs : Array (CSOPoint2 K)} {curr : K} {faces : Array (Face2 K)} {heap : Array (FaceId2 K)}
     {f : Face2 K × Bool} (hv : ∀ (i : Nat) (v : CSOPoint2 K), vs[i]? = some v → GV v)
     (hf : ∀ (i : Nat) (g : Face2 K), faces[i]? = some g → FaceOK vs g)
-    (hh : ∀ fid ∈ heap, ∃ g, faces[fid.id]? = some g ∧ InsOK vs g)
+    (hh : ∀ fid ∈ heap, ∃ g, faces[fid.id]? = some g ∧ InsOK vs g ∧ KeyOK vs g fid.negDist)
     (hok : FaceOK vs f.1) (hin : f.2 = true → InsOK vs f.1) :
-    (∀ r, epa2AddFace vs curr faces heap f = .inl r → OutOK GV r) ∧
+    (∀ r, epa2AddFace vs curr faces heap f = .inl r → OutOK GV supp1 supp2 r) ∧
     (∀ faces' heap', epa2AddFace vs curr faces heap f = .inr (faces', heap') →
       (∀ (i : Nat) (g : Face2 K), faces'[i]? = some g → FaceOK vs g) ∧
-      (∀ fid ∈ heap', ∃ g, faces'[fid.id]? = some g ∧ InsOK vs g) ∧
+      (∀ fid ∈ heap', ∃ g, faces'[fid.id]? = some g ∧ InsOK vs g ∧ KeyOK vs g fid.negDist) ∧
       (∀ (i : Nat) (g : Face2 K), faces[i]? = some g → faces'[i]? = some g)) := by
   have hpushF : ∀ (i : Nat) (g : Face2 K), (faces.push f.1)[i]? = some g → FaceOK vs g := by
     intro i g hg
@@ -225,7 +261,7 @@ theorem addFace_ok {vs : Array (CSOPoint2 K)} {curr : K} {faces : Array (Face2 K
     rw [Array.getElem?_push]; split
     · rename_i h; rw [h] at hg; simp at hg
     · exact hg
-  have hheapOld : ∀ fid ∈ heap, ∃ g, (faces.push f.1)[fid.id]? = some g ∧ InsOK vs g := by
+  have hheapOld : ∀ fid ∈ heap, ∃ g, (faces.push f.1)[fid.id]? = some g ∧ InsOK vs g ∧ KeyOK vs g fid.negDist := by
     intro fid hfid
     obtain ⟨g, hg, hb⟩ := hh fid hfid
     exact ⟨g, hkeep _ _ hg, hb⟩
@@ -236,7 +272,7 @@ theorem addFace_ok {vs : Array (CSOPoint2 K)} {curr : K} {faces : Array (Face2 K
     · rename_i hins
       simp only at hr
       split at hr
-      · cases hr; exact return_ok GV hv hok (hin hins)
+      · cases hr; exact return_ok GV hv hok (hin hins) .numerical (fun h => by cases h)
       · split at hr
         · split at hr
           · cases hr
@@ -263,16 +299,16 @@ theorem addFace_ok {vs : Array (CSOPoint2 K)} {curr : K} {faces : Array (Face2 K
               split at hfid
               · cases hfid
               · cases hfid
-                exact ⟨f.1, Array.getElem?_push_size, hin hins⟩
+                exact ⟨f.1, Array.getElem?_push_size, hin hins, Or.inr (Or.inl rfl)⟩
           · cases hr
         · cases hr; exact ⟨hpushF, hheapOld, hkeep⟩
     · cases hr; exact ⟨hpushF, hheapOld, hkeep⟩
 
-theorem finish_ok {st : Epa2State K} (h : Inv GV st) : OutOK GV (epa2Finish st) := by
+theorem finish_ok {supp1 supp2 : V2 K → V2 K} {st : Epa2State K} (h : Inv GV supp1 supp2 st) : OutOK GV supp1 supp2 (epa2Finish st) := by
   obtain ⟨f, hf, hb⟩ := h.best
   unfold epa2Finish
   rw [hf]
-  exact return_ok GV h.verts (h.faces _ _ hf) hb
+  exact return_ok GV h.verts (h.faces _ _ hf) hb .finished (fun h => by cases h)
 
 theorem verts_push {vs : Array (CSOPoint2 K)} {c : CSOPoint2 K} (hv : ∀ (i : Nat) (v : CSOPoint2 K), vs[i]? = some v → GV v)
     (hc : GV c) : ∀ (i : Nat) (v : CSOPoint2 K), (vs.push c)[i]? = some v → GV v := by
@@ -288,27 +324,28 @@ theorem lt_size_of_getElem? {α : Type} {a : Array α} {i : Nat} {x : α} (h : a
   · rw [Array.getElem?_eq_none hge] at h; cases h
 
 theorem step_ok {supp1 supp2 : V2 K → V2 K} (hs : ∀ d, GV (csoFromShapes supp1 supp2 d)) {st : Epa2State K}
-    (h : Inv GV st) :
-    (∀ r, epa2Step supp1 supp2 st = .inl r → OutOK GV r) ∧
-    (∀ st', epa2Step supp1 supp2 st = .inr st' → Inv GV st') := by
+    (h : Inv GV supp1 supp2 st) :
+    (∀ r, epa2Step supp1 supp2 st = .inl r → OutOK GV supp1 supp2 r) ∧
+    (∀ st', epa2Step supp1 supp2 st = .inr st' → Inv GV supp1 supp2 st') := by
   have key : ∀ x, epa2Step supp1 supp2 st = x →
       match x with
-      | .inl r => OutOK GV r
-      | .inr st' => Inv GV st' := by
+      | .inl r => OutOK GV supp1 supp2 r
+      | .inr st' => Inv GV supp1 supp2 st' := by
     intro x hx
     unfold epa2Step at hx
     split at hx
     · subst hx; exact finish_ok GV h
     · rename_i fid heap hpop
       obtain ⟨hfid, hsub⟩ := mem_of_heapPop hpop
-      obtain ⟨face, hface, hbc⟩ := h.heap fid hfid
+      obtain ⟨face, hface, hbc, hkey⟩ := h.heap fid hfid
       rw [hface] at hx
       simp only at hx
       have hfok := h.faces _ _ hface
       split at hx
       · subst hx
-        exact ⟨h.verts, h.faces, fun y hy => h.heap y (hsub y hy), h.best⟩
-      · have hvs := verts_push GV h.verts (hs face.normal)
+        exact ⟨h.verts, h.faces, fun y hy => h.heap y (hsub y hy), h.best, h.maxd⟩
+      · rename_i hdel
+        have hvs := verts_push GV h.verts (hs face.normal)
         have hfaces' : ∀ (i : Nat) (g : Face2 K), st.faces[i]? = some g →
             FaceOK (st.vertices.push (csoFromShapes supp1 supp2 face.normal)) g :=
           fun i g hg => FaceOK_push _ (h.faces i g hg)
@@ -321,16 +358,27 @@ theorem step_ok {supp1 supp2 : V2 K → V2 K} (hs : ∀ d, GV (csoFromShapes sup
             exact ⟨f, hf, InsOK_push _ hb⟩
         generalize hB : (if (csoFromShapes supp1 supp2 face.normal).point.dot face.normal < st.maxDist
             then fid else st.best) = best' at hx hbest0
+        have hmax0 : MaxOK GV supp1 supp2 (if (csoFromShapes supp1 supp2 face.normal).point.dot face.normal < st.maxDist
+            then (csoFromShapes supp1 supp2 face.normal).point.dot face.normal else st.maxDist) := by
+          split
+          · obtain ⟨a, b, ha, hb, hn⟩ := hfok
+            rcases hn with ⟨h1, _⟩ | ⟨_, _, h3⟩
+            · exact Or.inr ⟨a, b, face.normal, h.verts _ _ ha, h.verts _ _ hb, h1, rfl⟩
+            · exact absurd h3 hdel
+          · exact h.maxd
         generalize hM : (if (csoFromShapes supp1 supp2 face.normal).point.dot face.normal < st.maxDist
-            then (csoFromShapes supp1 supp2 face.normal).point.dot face.normal else st.maxDist) = maxDist' at hx
+            then (csoFromShapes supp1 supp2 face.normal).point.dot face.normal else st.maxDist) = maxDist' at hx hmax0
         have hbest := hbest0
         split at hx
         · split at hx
-          · subst hx; exact return_ok GV hvs (FaceOK_push _ hfok) (InsOK_push _ hbc)
+          · rename_i hcond
+            subst hx
+            exact return_ok GV hvs (FaceOK_push _ hfok) (InsOK_push _ hbc) .boundsMet
+              (fun _ => ⟨fid.negDist, maxDist', hcond, hmax0, KeyOK_push _ hkey⟩)
           · obtain ⟨bf, hbf, hbb⟩ := hbest
             rw [hbf] at hx
             subst hx
-            exact return_ok GV hvs (hfaces' _ _ hbf) hbb
+            exact return_ok GV hvs (hfaces' _ _ hbf) hbb .stuck (fun h => by cases h)
         · obtain ⟨a, b, ha, hb, _⟩ := hfok
           have h0 : face.pts0 < (st.vertices.push (csoFromShapes supp1 supp2 face.normal)).size := by
             rw [Array.size_push]; exact Nat.lt_succ_of_lt (lt_size_of_getElem? ha)
@@ -346,25 +394,26 @@ theorem step_ok {supp1 supp2 : V2 K → V2 K} (hs : ∀ d, GV (csoFromShapes sup
           have hn1 := new_ok (f := f1.1) (ins := f1.2) (by rw [hf1])
           have hn2 := new_ok (f := f2.1) (ins := f2.2) (by rw [hf2])
           have hheap0 : ∀ y ∈ heap, ∃ g, st.faces[y.id]? = some g ∧
-              InsOK (st.vertices.push (csoFromShapes supp1 supp2 face.normal)) g := by
+              InsOK (st.vertices.push (csoFromShapes supp1 supp2 face.normal)) g ∧
+              KeyOK (st.vertices.push (csoFromShapes supp1 supp2 face.normal)) g y.negDist := by
             intro y hy
-            obtain ⟨g, hg, hb⟩ := h.heap y (hsub y hy)
-            exact ⟨g, hg, InsOK_push _ hb⟩
-          have A1 := addFace_ok GV (curr := -fid.negDist) hvs hfaces' hheap0 hn1.1 hn1.2
+            obtain ⟨g, hg, hb, hk⟩ := h.heap y (hsub y hy)
+            exact ⟨g, hg, InsOK_push _ hb, KeyOK_push _ hk⟩
+          have A1 := addFace_ok GV (supp1 := supp1) (supp2 := supp2) (curr := -fid.negDist) hvs hfaces' hheap0 hn1.1 hn1.2.1
           split at hx
           · rename_i r hr
             subst hx; exact A1.1 r hr
           · rename_i faces1 heap1 hr
             obtain ⟨B1, B2, B3⟩ := A1.2 faces1 heap1 hr
-            have A2 := addFace_ok GV (curr := -fid.negDist) hvs B1 B2 hn2.1 hn2.2
+            have A2 := addFace_ok GV (supp1 := supp1) (supp2 := supp2) (curr := -fid.negDist) hvs B1 B2 hn2.1 hn2.2.1
             split at hx
             · rename_i r hr2
               subst hx; exact A2.1 r hr2
             · rename_i faces2 heap2 hr2
               obtain ⟨C1, C2, C3⟩ := A2.2 faces2 heap2 hr2
               obtain ⟨bf, hbf, hbb⟩ := hbest
-              have hI : Inv GV ⟨st.vertices.push (csoFromShapes supp1 supp2 face.normal), faces2, heap2, st.niter + 1,
-                  maxDist', best', -fid.negDist⟩ := ⟨hvs, C1, C2, ⟨bf, C3 _ _ (B3 _ _ hbf), hbb⟩⟩
+              have hI : Inv GV supp1 supp2 ⟨st.vertices.push (csoFromShapes supp1 supp2 face.normal), faces2, heap2, st.niter + 1,
+                  maxDist', best', -fid.negDist⟩ := ⟨hvs, C1, C2, ⟨bf, C3 _ _ (B3 _ _ hbf), hbb⟩, hmax0⟩
               split at hx
               · subst hx; exact finish_ok GV hI
               · subst hx; exact hI
@@ -373,7 +422,7 @@ theorem step_ok {supp1 supp2 : V2 K → V2 K} (hs : ∀ d, GV (csoFromShapes sup
   · intro st' hr; exact key _ hr
 
 theorem loop_ok {supp1 supp2 : V2 K → V2 K} (hs : ∀ d, GV (csoFromShapes supp1 supp2 d)) (fuel : Nat)
-    {st : Epa2State K} (h : Inv GV st) : OutOK GV (epa2Loop supp1 supp2 fuel st) := by
+    {st : Epa2State K} (h : Inv GV supp1 supp2 st) : OutOK GV supp1 supp2 (epa2Loop supp1 supp2 fuel st) := by
   induction fuel generalizing st with
   | zero => unfold epa2Loop; trivial
   | succ n ih =>
@@ -387,15 +436,16 @@ theorem start_ok {supp1 supp2 : V2 K → V2 K} (hs : ∀ d, GV (csoFromShapes su
     {vs : Array (CSOPoint2 K)} {faces : Array (Face2 K)} {heap : Array (FaceId2 K)}
     (hv : ∀ (i : Nat) (v : CSOPoint2 K), vs[i]? = some v → GV v)
     (hf : ∀ (i : Nat) (g : Face2 K), faces[i]? = some g → FaceOK vs g)
-    (hh : ∀ fid ∈ heap, ∃ g, faces[fid.id]? = some g ∧ InsOK vs g)
-    (hne : heap.size ≠ 0) : OutOK GV (epa2Start supp1 supp2 fuel vs faces heap) := by
+    (hh : ∀ fid ∈ heap, ∃ g, faces[fid.id]? = some g ∧ InsOK vs g ∧ KeyOK vs g fid.negDist)
+    (hne : heap.size ≠ 0) : OutOK GV supp1 supp2 (epa2Start supp1 supp2 fuel vs faces heap) := by
   unfold epa2Start
   split
   · rename_i h0
     have : 0 < heap.size := Nat.pos_of_ne_zero hne
     rw [Array.getElem?_eq_getElem this] at h0; cases h0
   · rename_i top htop
-    exact loop_ok GV hs fuel ⟨hv, hf, hh, hh top (Array.mem_of_getElem? htop)⟩
+    obtain ⟨g, hg, hins, _⟩ := hh top (Array.mem_of_getElem? htop)
+    exact loop_ok GV hs fuel ⟨hv, hf, hh, ⟨g, hg, hins⟩, Or.inl rfl⟩
 
 theorem size_heapPush (h : Array (FaceId2 K)) (x : FaceId2 K) : (heapPush h x).size = h.size + 1 := by
   unfold heapPush
@@ -403,7 +453,8 @@ theorem size_heapPush (h : Array (FaceId2 K)) (x : FaceId2 K) : (heapPush h x).s
 
 theorem initPush_ok {heap heap' : Array (FaceId2 K)} {i : Nat} {f : Face2 K × Bool} {v : CSOPoint2 K}
     (h : epa2InitPush heap i f v = some heap') :
-    (∀ y ∈ heap', y ∈ heap ∨ (y.id = i ∧ f.2 = true)) ∧ (f.2 = true → heap'.size ≠ 0) ∧
+    (∀ y ∈ heap', y ∈ heap ∨ (y.id = i ∧ f.2 = true ∧ y.negDist = -(f.1.normal.dot v.point))) ∧
+    (f.2 = true → heap'.size ≠ 0) ∧
     (heap.size ≠ 0 → heap'.size ≠ 0) := by
   unfold epa2InitPush at h
   split at h
@@ -420,7 +471,7 @@ theorem initPush_ok {heap heap' : Array (FaceId2 K)} {i : Nat} {f : Face2 K × B
       intro y hy
       rcases mem_heapPush hy with h | h
       · exact Or.inl h
-      · subst h; exact Or.inr ⟨rfl, hins⟩
+      · subst h; exact Or.inr ⟨rfl, hins, rfl⟩
   · cases h
     refine ⟨fun y hy => Or.inl hy, fun h => ?_, fun h => h⟩
     rename_i hn; exact absurd h hn
@@ -429,7 +480,7 @@ theorem initPush_ok {heap heap' : Array (FaceId2 K)} {i : Nat} {f : Face2 K × B
 CSO support point satisfy `GV`, every result satisfies `OutOK` (in particular no indexing panic) -/
 theorem closestPoints_ok {supp1 supp2 : V2 K → V2 K} (hs : ∀ d, GV (csoFromShapes supp1 supp2 d)) (fuel : Nat)
     (simplex : List (CSOPoint2 K)) (hg : ∀ v ∈ simplex, GV v) (hlen : simplex.length = 2 ∨ simplex.length = 3) :
-    OutOK GV (epa2ClosestPoints supp1 supp2 fuel simplex) := by
+    OutOK GV supp1 supp2 (epa2ClosestPoints supp1 supp2 fuel simplex) := by
   match simplex, hlen with
   | [v0, v1], _ =>
     have g0 : GV v0 := hg v0 (by simp)
@@ -448,14 +499,14 @@ theorem closestPoints_ok {supp1 supp2 : V2 K → V2 K} (hs : ∀ d, GV (csoFromS
       obtain ⟨k2, k2a, k2b⟩ := newWithProj_ok hf2
       split
       · rename_i i1 i2 hi1 hi2
-        have e1 : i1.id = 0 := by
+        have e1 : i1.id = 0 ∧ i1.negDist = 0 := by
           unfold FaceId2.new? at hi1; split at hi1
           · cases hi1
-          · cases hi1; rfl
-        have e2 : i2.id = 1 := by
+          · cases hi1; exact ⟨rfl, rfl⟩
+        have e2 : i2.id = 1 ∧ i2.negDist = 0 := by
           unfold FaceId2.new? at hi2; split at hi2
           · cases hi2
-          · cases hi2; rfl
+          · cases hi2; exact ⟨rfl, rfl⟩
         apply start_ok GV hs fuel hv
         · intro i g h
           match i, h with
@@ -466,8 +517,8 @@ theorem closestPoints_ok {supp1 supp2 : V2 K → V2 K} (hs : ∀ d, GV (csoFromS
           rcases mem_heapPush hy with h | h
           · rcases mem_heapPush h with h' | h'
             · simp at h'
-            · subst h'; rw [e1]; exact ⟨f1, by simp, Or.inl ⟨k1a, k1b.1⟩⟩
-          · subst h; rw [e2]; exact ⟨f2, by simp, Or.inl ⟨k2a, k2b.1⟩⟩
+            · subst h'; rw [e1.1]; exact ⟨f1, by simp, Or.inl ⟨k1a, k1b.1, k1b.2.2.2⟩, Or.inl e1.2⟩
+          · subst h; rw [e2.1]; exact ⟨f2, by simp, Or.inl ⟨k2a, k2b.1, k2b.2.2.2⟩, Or.inl e2.2⟩
         · rw [size_heapPush]; exact Nat.succ_ne_zero _
       · trivial
     · rename_i hno
@@ -499,7 +550,7 @@ theorem closestPoints_ok {supp1 supp2 : V2 K → V2 K} (hs : ∀ d, GV (csoFromS
         | 2, h => simp at h; subst h; exact g2
         | n + 3, h => simp at h
     split
-    · rename_i f1 f2 f3 w0 w1 w2 hf1 hf2 hf3 _ _ _
+    · rename_i f1 f2 f3 w0 w1 w2 hf1 hf2 hf3 hw0 hw1 hw2
       have n1 := new_ok (f := f1.1) (ins := f1.2) hf1
       have n2 := new_ok (f := f2.1) (ins := f2.2) hf2
       have n3 := new_ok (f := f3.1) (ins := f3.2) hf3
@@ -526,13 +577,13 @@ theorem closestPoints_ok {supp1 supp2 : V2 K → V2 K} (hs : ∀ d, GV (csoFromS
                 | 2, h => simp at h; subst h; exact n3.1
                 | n + 3, h => simp at h
               · intro y hy
-                rcases p3.1 y hy with h | ⟨hid, hin⟩
-                · rcases p2.1 y h with h | ⟨hid, hin⟩
-                  · rcases p1.1 y h with h | ⟨hid, hin⟩
+                rcases p3.1 y hy with h | ⟨hid, hin, hnd⟩
+                · rcases p2.1 y h with h | ⟨hid, hin, hnd⟩
+                  · rcases p1.1 y h with h | ⟨hid, hin, hnd⟩
                     · simp at h
-                    · rw [hid]; exact ⟨f1.1, by simp, n1.2 hin⟩
-                  · rw [hid]; exact ⟨f2.1, by simp, n2.2 hin⟩
-                · rw [hid]; exact ⟨f3.1, by simp, n3.2 hin⟩
+                    · rw [hid]; exact ⟨f1.1, by simp, n1.2.1 hin, Or.inr (Or.inr ⟨w0, by rw [n1.2.2]; exact hw0, hnd⟩)⟩
+                  · rw [hid]; exact ⟨f2.1, by simp, n2.2.1 hin, Or.inr (Or.inr ⟨w1, by rw [n2.2.2]; exact hw1, hnd⟩)⟩
+                · rw [hid]; exact ⟨f3.1, by simp, n3.2.1 hin, Or.inr (Or.inr ⟨w2, by rw [n3.2.2]; exact hw2, hnd⟩)⟩
               · have : f1.2 = true ∨ f2.2 = true ∨ f3.2 = true := by
                   cases hA : f1.2 <;> cases hB : f2.2 <;> cases hC : f3.2 <;> simp_all
                 rcases this with h | h | h
